@@ -203,6 +203,9 @@ func lname(n string) string {
 	if n == "q0" {
 		return `%"0"`
 	}
+	if n == "n0" {
+		return "%0" // the bare numeral: an ID
+	}
 	return "%" + ident(n)
 }
 
@@ -331,7 +334,7 @@ func Render(src []Entity) string {
 				init = fmt.Sprintf("bitcast (%s* null to i8*)", tyName(tc[0].To))
 			} else if directBA(e) {
 				x := refsOf(e, "l.baddr")[0]
-				init = fmt.Sprintf("blockaddress(%s, %%%s)", gname(x.To), x.Aux)
+				init = fmt.Sprintf("blockaddress(%s, %s)", gname(x.To), lname(x.Aux))
 			} else if c := refsOf(e, "g.cmp"); len(c) > 0 {
 				pt := r.ptrType(c[0].To)
 				init = fmt.Sprintf("icmp eq (%s %s, %s null)", pt, gname(c[0].To), pt)
@@ -346,7 +349,7 @@ func Render(src []Entity) string {
 					case "g.init":
 						elems = append(elems, r.asI8(x.To))
 					case "l.baddr":
-						elems = append(elems, fmt.Sprintf("i8* blockaddress(%s, %%%s)", gname(x.To), x.Aux))
+						elems = append(elems, fmt.Sprintf("i8* blockaddress(%s, %s)", gname(x.To), lname(x.Aux)))
 					}
 				}
 				init = "[" + strings.Join(elems, ", ") + "]"
@@ -423,7 +426,7 @@ func Render(src []Entity) string {
 				case "m.tuple":
 					fs = append(fs, mdID(x.To))
 				case "l.baddr":
-					fs = append(fs, fmt.Sprintf("i8* blockaddress(%s, %%%s)", gname(x.To), x.Aux))
+					fs = append(fs, fmt.Sprintf("i8* blockaddress(%s, %s)", gname(x.To), lname(x.Aux)))
 				case "g.mdvalue":
 					fs = append(fs, r.ptrType(x.To)+" "+gname(x.To))
 				}
@@ -436,12 +439,12 @@ func Render(src []Entity) string {
 			fmt.Fprintf(&sb, "%s = %s!{%s}\n", mdID(e.N), d, strings.Join(fs, ", "))
 		case "ulo":
 			if e.Refs[0].RK == "l.baddr" {
-				fmt.Fprintf(&sb, "uselistorder i8* blockaddress(%s, %%%s), { 1, 0 }\n", gname(e.Refs[0].To), e.Refs[0].Aux)
+				fmt.Fprintf(&sb, "uselistorder i8* blockaddress(%s, %s), { 1, 0 }\n", gname(e.Refs[0].To), lname(e.Refs[0].Aux))
 			} else {
 				fmt.Fprintf(&sb, "uselistorder %s %s, { 1, 0 }\n", r.ptrType(e.Refs[0].To), gname(e.Refs[0].To))
 			}
 		case "ulobb":
-			fmt.Fprintf(&sb, "uselistorder_bb %s, %%%s, { 1, 0 }\n", gname(e.Refs[0].To), e.Refs[0].Aux)
+			fmt.Fprintf(&sb, "uselistorder_bb %s, %s, { 1, 0 }\n", gname(e.Refs[0].To), lname(e.Refs[0].Aux))
 		}
 	}
 	return sb.String()
@@ -680,7 +683,7 @@ func (r *renderer) renderInst(l *Local) string {
 		case "ty.inst":
 			return fmt.Sprintf("%salloca %s*%s", lhs, tyName(x.To), md)
 		case "l.baddr":
-			return fmt.Sprintf("%sptrtoint i8* blockaddress(%s, %%%s) to i32%s", lhs, gname(x.To), x.Aux, md)
+			return fmt.Sprintf("%sptrtoint i8* blockaddress(%s, %s) to i32%s", lhs, gname(x.To), lname(x.Aux), md)
 		}
 	}
 	if len(phis) > 0 {
@@ -737,6 +740,12 @@ func FaultSites(src []Entity) []string {
 		}
 		if x.Aux == "zz" {
 			out = append(out, x.RK+".aux")
+		}
+		if x.To == "n0" {
+			out = append(out, x.RK+"@bare-numeral")
+		}
+		if x.Aux == "n0" {
+			out = append(out, x.RK+".aux@bare-numeral")
 		}
 	}
 	for _, e := range src {
